@@ -95,4 +95,14 @@ PROPS = {
         'exhaustive': 'the built-in x receiver x argument-state matrix is complete; law inputs are sampled',
         'must_observe': ['matrix_builtins_completed', 'string_law_cases', 'number_law_cases'],
     },
+    'C08': {
+        'level': 'exploration',
+        'technique': 'specification monitor: templates generated as item lists (text, expression, every tag kind, comments, raw) with all `-` marker placements; expected output computed from the list alone and compared with real renders; identity and re-spelling metamorphism over accepted delimiter sets',
+        'claim': 'Each generated template is rendered under the default and random accepted delimiter sets (ASCII pairs, two-byte characters, mixed) and compared byte for byte with the 60-line item specification; '
+                 'texts cover every whitespace kind, partial delimiters and characters sharing UTF-8 bytes with two-byte delimiters; every tag kind (set, if/elif/else, for/else, filter, set-block, block, include, component calls, raw inner/outer, comments) carries random markers, nested 3 deep. '
+                 'One case in eight checks that a source without start delimiter renders to itself; one in three renders the same item list under three delimiter sets.',
+        'note': "whitespace = char::is_whitespace (shared with the engine's trim); delimiter sets of the specification class contain no `-`, whitespace, quote, identifier or operator character and six pairwise distinct members; texts whose concatenation with the next delimiter would move the first start delimiter are rejected as ambiguous (counted)",
+        'rule': "one evaluation = one render of a spelled item list (or identity source); a cell = (left neighbour kind, its right marker, text-or-raw and its whitespace class, right neighbour's left marker, right neighbour kind), plus identity cells by delimiter class",
+        'must_observe': ['templates_compared', 'identity_checks', 'respelling_groups'],
+    },
 }
